@@ -15,7 +15,18 @@ Inductive ann := AnnNone | AnnBad | AnnTime (t : Z).
 (* the NodeClaim's Drained condition; the transition time is stored with second precision *)
 Inductive dcond := CAbsent | CUnknown (since : Z) | CTrue.
 
-Inductive nres := NError | NRequeue | NDrained.
+Inductive nres := NError | NRequeue | NDrained | NSkip | NGone.
+
+(* what happens around the drain in one reconcile of the node (everything else: GRun) *)
+Inductive gate :=
+| GRun
+| GSkip             (* node not deleting / without the karpenter finalizer / not managed: nothing happens *)
+| GEarlyError       (* NodeClaim lookup or delete fails, or the instance lookup of a not-ready node fails *)
+| GInstanceGone     (* node not ready and the provider reports the instance gone: finalizer removed, no drain *)
+| GTaintConflict    (* the taint patch conflicts: requeue before the drain *)
+| GTaintError       (* the taint patch fails otherwise *)
+| GPodListFails     (* the List call of Terminator.Drain fails *)
+| GStatusPatchFails. (* the NodeClaim status patch after the drain fails (not a conflict) *)
 
 (* nodeTerminationTime; None = error (the reconcile stops before the drain) *)
 Definition claim_deadline (has_claim : bool) (a : ann) : option (option Z) :=
@@ -26,10 +37,12 @@ Definition claim_deadline (has_claim : bool) (a : ann) : option (option Z) :=
 Definition min_drain : Z := 5 * sec.
 Definition floor_sec (t : Z) : Z := t / sec * sec.
 
-(* awaitDrain *)
+Definition fresh_cond (has_claim : bool) (c : dcond) : bool := match c with CAbsent => has_claim | _ => false end.
+
+(* awaitDrain; without a NodeClaim a drained node loses its finalizer in the same reconcile (NGone) *)
 Definition await_drain (q : queue) (has_claim : bool) (c : dcond) (now : Z) (dl : option Z) (pods : list pod)
   : queue * dcond * nres * dout :=
-  let fresh := match c with CAbsent => has_claim | _ => false end in
+  let fresh := fresh_cond has_claim c in
   let c0 := if fresh then CUnknown (floor_sec now) else c in
   let '(q', d) := drain q now dl pods in
   match d_err d with
@@ -40,23 +53,48 @@ Definition await_drain (q : queue) (has_claim : bool) (c : dcond) (now : Z) (dl 
         | CTrue => (q', CTrue, NDrained, d)
         | CAbsent => (q', c0, NRequeue, d)
         end
-      else (q', c0, NDrained, d)
+      else (q', c0, NGone, d)
   | _ => (q', c0, NRequeue, d)
+  end.
+
+Definition dcond_same (a b : dcond) : bool :=
+  match a, b with
+  | CAbsent, CAbsent | CTrue, CTrue => true
+  | CUnknown s, CUnknown s' => s =? s'
+  | _, _ => false
   end.
 
 (* [deleting] = the NodeClaim already carried a deletionTimestamp when the pass started. If not, finalize deletes it
    first, which bumps its resourceVersion; the status patch at the end of the pass (optimistic lock, built from the
    object read before the delete) then conflicts, the new Drained condition is not persisted and the pass requeues.
    The drain itself has happened by then. *)
-Definition node_pass (q : queue) (has_claim deleting : bool) (a : ann) (c : dcond) (now : Z) (pods : list pod)
+Definition node_pass (g : gate) (q : queue) (has_claim deleting : bool) (a : ann) (c : dcond) (now : Z) (pods : list pod)
   : queue * dcond * nres * option dout :=
-  match claim_deadline has_claim a with
-  | None => (q, c, NError, None)
-  | Some dl =>
-      let '(q', c', r, d) := await_drain q has_claim c now dl pods in
-      if has_claim && negb deleting && match c with CAbsent => true | _ => false end
-      then (q', c, NRequeue, Some d)
-      else (q', c', r, Some d)
+  match g with
+  | GSkip => (q, c, NSkip, None)
+  | GEarlyError => (q, c, NError, None)
+  | GInstanceGone => (q, c, NGone, None)
+  | _ =>
+    match claim_deadline has_claim a with
+    | None => (q, c, NError, None)
+    | Some dl =>
+        let conflict := has_claim && negb deleting && fresh_cond has_claim c in
+        match g with
+        | GTaintConflict => (q, c, NRequeue, None)
+        | GTaintError => (q, c, NError, None)
+        | GPodListFails =>
+            (* the condition set before the drain is still patched; the list error is returned after the patch *)
+            if conflict then (q, c, NRequeue, None)
+            else (q, (if fresh_cond has_claim c then CUnknown (floor_sec now) else c), NError, None)
+        | _ =>
+            let '(q', c', r, d) := await_drain q has_claim c now dl pods in
+            let patched := has_claim && (negb (dcond_same c' c) || match r with NDrained => true | _ => false end) in
+            match g with
+            | GStatusPatchFails => if patched then (q', c, NError, Some d) else (q', c', r, Some d)
+            | _ => if conflict then (q', c, NRequeue, Some d) else (q', c', r, Some d)
+            end
+        end
+    end
   end.
 
 (* ------------------------------------------------------------------ proofs *)
@@ -72,26 +110,43 @@ Proof.
   match goal with |- context [if ?b then _ else _] => destruct b end; split; reflexivity.
 Qed.
 
-(* the deadline handed to the queue is the NodeClaim's termination timestamp: the pass is a drain pass under
-   exactly that deadline (no NodeClaim or no annotation = no deadline), or no drain pass at all *)
+(* whatever happens around it, the queue after one reconcile of the node is either untouched or the result of a
+   drain pass under exactly the NodeClaim's termination timestamp *)
+Lemma node_pass_queue_l : forall g q hc del a c now pods,
+  fst (fst (fst (node_pass g q hc del a c now pods))) = q \/
+  exists dl, claim_deadline hc a = Some dl /\
+             fst (fst (fst (node_pass g q hc del a c now pods))) = fst (drain q now dl pods).
+Proof.
+  intros. unfold node_pass.
+  destruct (claim_deadline hc a) as [dl|] eqn:E.
+  2:{ destruct g; left; reflexivity. }
+  pose proof (await_drain_queue q hc c now dl pods) as [H1 _].
+  destruct (await_drain q hc c now dl pods) as [[[q' c'] r] d]. cbn in H1. subst q'.
+  destruct g; try (left; reflexivity).
+  - right. exists dl. split; [reflexivity|].
+    destruct (hc && negb del && fresh_cond hc c); reflexivity.
+  - destruct (hc && negb del && fresh_cond hc c); left; reflexivity.
+  - right. exists dl. split; [reflexivity|].
+    destruct (hc && (negb (dcond_same c' c) || match r with NDrained => true | _ => false end)); reflexivity.
+Qed.
+
+(* the undisturbed reconcile is a drain pass under claim_deadline, or no drain at all when the annotation does not parse *)
 Lemma node_pass_is_drain_under_claim_deadline_l : forall q hc del a c now pods,
   match claim_deadline hc a with
-  | Some dl => fst (fst (fst (node_pass q hc del a c now pods))) = fst (drain q now dl pods) /\
-               snd (node_pass q hc del a c now pods) = Some (snd (drain q now dl pods))
-  | None => node_pass q hc del a c now pods = (q, c, NError, None)
+  | Some dl => fst (fst (fst (node_pass GRun q hc del a c now pods))) = fst (drain q now dl pods) /\
+               snd (node_pass GRun q hc del a c now pods) = Some (snd (drain q now dl pods))
+  | None => node_pass GRun q hc del a c now pods = (q, c, NError, None)
   end.
 Proof.
   intros. unfold node_pass. destruct (claim_deadline hc a) as [dl|]; [|reflexivity].
   pose proof (await_drain_queue q hc c now dl pods) as [H1 H2].
   destruct (await_drain q hc c now dl pods) as [[[q' c'] r] d]. cbn in H1, H2. subst.
-  destruct (hc && negb del && match c with CAbsent => true | _ => false end); split; reflexivity.
+  destruct (hc && negb del && fresh_cond hc c); split; reflexivity.
 Qed.
 
-(* ... never later: every pod the pass selects is afterwards queued under a deadline no later than the
-   NodeClaim's termination timestamp t *)
 Lemma node_deadline_never_later_l : forall q del a c now pods t k,
   a = AnnTime t -> In k (selected_keys now (Some t) pods) ->
-  exists d, qget k (fst (fst (fst (node_pass q true del a c now pods)))) = Some d /\ dl_le d (Some t).
+  exists d, qget k (fst (fst (fst (node_pass GRun q true del a c now pods)))) = Some d /\ dl_le d (Some t).
 Proof.
   intros q del a c now pods t k Ha Hk. subst a.
   pose proof (node_pass_is_drain_under_claim_deadline_l q true del (AnnTime t) c now pods) as H.
@@ -101,29 +156,39 @@ Proof.
   destruct (drain q now (Some t) pods) as [q' x]. exact B.
 Qed.
 
-(* a direct delete after node-level passes only: the deadline in the queue is some pass's claim timestamp
-   (from queue_entry_provenance, since every node pass is a drain pass under claim_deadline) *)
-
-(* Drained is reported only when no pod is waiting and, with a NodeClaim, only after MinDrainTime since the
-   condition went Unknown (or it already was True) *)
-Lemma node_drained_only_if_l : forall q hc del a c now pods,
-  snd (fst (node_pass q hc del a c now pods)) = NDrained ->
+(* Drained (or, without a NodeClaim, the finalizer removed after a drain) only when no pod is waiting and, with a
+   NodeClaim, only MinDrainTime after the condition went Unknown (or it already was True); for every gate except the
+   vanished instance *)
+Lemma node_drained_only_if_l : forall g q hc del a c now pods,
+  g <> GInstanceGone ->
+  (snd (fst (node_pass g q hc del a c now pods)) = NDrained \/ snd (fst (node_pass g q hc del a c now pods)) = NGone) ->
   (forall p, In p pods -> ~ waiting now p) /\
   (hc = true -> c = CTrue \/ exists s, c = CUnknown s /\ min_drain <= now - s).
 Proof.
-  intros q hc del a c now pods H. unfold node_pass in H.
-  destruct (claim_deadline hc a) as [dl|]; [|discriminate].
-  unfold await_drain in H.
-  pose proof (drain_done_iff_l q now dl pods) as Hd.
-  destruct (drain q now dl pods) as [q' d]. cbn in Hd, H.
-  destruct (d_err d) eqn:E.
-  2:{ destruct hc, del, c; cbn in H; discriminate. }
-  2:{ destruct hc, del, c; cbn in H; discriminate. }
-  split; [apply Hd; reflexivity|]. intros Hc. subst hc.
-  destruct c as [|s|].
-  - destruct del; cbn in H; discriminate.
-  - rewrite andb_false_r in H. cbn in H.
-    destruct (Z.ltb_spec (now - s) 5000000000); cbn in H; [discriminate|].
-    right. exists s. split; [reflexivity | unfold min_drain, sec; lia].
-  - left. reflexivity.
+  intros g q hc del a c now pods Hg H. unfold node_pass in H.
+  assert (Core : forall dl, let x := await_drain q hc c now dl pods in
+            (snd (fst x) = NDrained \/ snd (fst x) = NGone) ->
+            (forall p, In p pods -> ~ waiting now p) /\
+            (hc = true -> c = CTrue \/ exists s, c = CUnknown s /\ min_drain <= now - s)).
+  { intros dl x Hx. subst x. unfold await_drain in Hx.
+    pose proof (drain_done_iff_l q now dl pods) as Hd.
+    destruct (drain q now dl pods) as [q' d]. cbn in Hd, Hx.
+    destruct (d_err d) eqn:E.
+    2:{ destruct Hx as [Hx|Hx]; cbn in Hx; discriminate. }
+    2:{ destruct Hx as [Hx|Hx]; cbn in Hx; discriminate. }
+    split; [apply Hd; reflexivity|]. intros Hc. subst hc.
+    destruct c as [|s|]; cbn in Hx.
+    - destruct Hx as [Hx|Hx]; discriminate.
+    - destruct (Z.ltb_spec (now - s) 5000000000); cbn in Hx; [destruct Hx as [Hx|Hx]; discriminate|].
+      right. exists s. split; [reflexivity | unfold min_drain, sec; lia].
+    - left. reflexivity. }
+  destruct (claim_deadline hc a) as [dl|].
+  2:{ destruct g; cbn in H; destruct H as [H|H]; try discriminate; congruence. }
+  specialize (Core dl). cbn zeta in Core.
+  destruct (await_drain q hc c now dl pods) as [[[q' c'] r] d]. cbn in Core.
+  destruct g; cbn in H; try (destruct H as [H|H]; discriminate); try congruence.
+  - destruct (hc && negb del && fresh_cond hc c); cbn in H; [destruct H as [H|H]; discriminate | apply Core; exact H].
+  - destruct (hc && negb del && fresh_cond hc c); cbn in H; destruct H as [H|H]; discriminate.
+  - destruct (hc && (negb (dcond_same c' c) || match r with NDrained => true | _ => false end)); cbn in H;
+      [destruct H as [H|H]; discriminate | apply Core; exact H].
 Qed.
